@@ -47,6 +47,9 @@ def _templates() -> List[dict]:
     add("datetime-offset", ["name", kw(" ge "), "2020-02-29", kw("T"), "10:00:00.5+02:00"])
     add("duration", ["n", kw(" eq "), kw("duration"), "'", kw("P"), "1", kw("D"), kw("T"), "2", kw("H"), "3", kw("M"), "4.5", kw("S"), "'"])
     add("exponent", ["n", kw(" lt "), "1.5", kw("e"), "3"])
+    add("datetime-frac7", ["name", kw(" gt "), "2020-02-29", kw("T"), "23:59:58.1234567", kw("Z")])
+    add("datetime-frac12", ["name", kw(" lt "), "2020-02-29", kw("T"), "23:59:58.123456789012", kw("Z")])
+    add("datetime-frac-offset", ["name", kw(" ge "), "2020-02-29", kw("T"), "23:59:58.123456789+05:30"])
     add("function-bool", ["contains(name, 'a')", kw(" eq "), kw("true"), kw(" and "), "startswith(title, 'b')"])
     add("time-date", ["name", kw(" eq "), "10:30:00", kw(" or "), "title", kw(" eq "), "2020-01-31"])
     return T
